@@ -196,6 +196,7 @@ def gen_case(seed, tier):
         config["platform"] = fl.choice(["xc7", "xc6s", "xc3s"])
     config["vendor"] = {"platform": fl.choice(vendors.NAMES), "castable": fl.choice([None, None, "enum", "struct"]),
                         "default_init": fl.random() < 0.3}         # (no init= given: the stages start at the shape's default)
+    case["rerun"] = fl.random() < 0.2
     if kind in ("async", "reset") and not config.get("shadow_neg"):
         names = [n_ for n_ in ("async_ff", "reset_sync", "src") if n_ != config.get("o_name")]
         config["i_reset_of"] = fl.choice([None, None] + names)
@@ -698,6 +699,14 @@ def run_case(case):
         stats["faults"]["reuse"] = stats["faults"].get("reuse", 0) + 1
         if res.violation is None and dig.hexdigest() != first:
             res.violation = {"oracle": "second_use_of_same_object_differs", "step": -1, "detail": {}}
+    if res.violation is None and res.harness_error is None and case.get("rerun"):
+        # the same simulator after Simulator.reset(): every stage (reset-less ones too) is back at its initial value, and the
+        # same schedule gives the same behaviour
+        first = dig.restart()
+        run_guarded(res, lambda: run.rerun(body))
+        stats["faults"]["sim_reset"] = stats["faults"].get("sim_reset", 0) + 1
+        if res.violation is None and dig.hexdigest() != first:
+            res.violation = {"oracle": "differs_after_simulator_reset", "step": -1, "detail": {}}
     stats["decisions"] = run.decisions
     dig.add_events(run.events)
     nontrivial = P["out_changes"] > 0 and any(stats["faults"].values())
